@@ -130,22 +130,35 @@ def ieval(e, subst):
 
 
 _COUNTER_ALIASES = set()
+_INFO_COPIES = set()       # non-reference locals of type MemoryInfo / Index that hold a *copy* of a pool entry (or of its counter)
 
 
-def set_counter_aliases(fn):
-    """reference locals bound to a MemoryInfo::counter (auto & c = it->second.counter)"""
+def set_counter_aliases(fn, entry_only=True):
+    """reference locals bound to a MemoryInfo::counter (auto & c = it->second.counter).  With entry_only (release / increase:
+    the counter that matters is the one stored in the pool) value copies `MemoryInfo info = it->second;` / `Index c = it->second.counter;`
+    are recorded as copies: updating them does not update the pool entry."""
     _COUNTER_ALIASES.clear()
+    _INFO_COPIES.clear()
     for n in fn.nodes():
         if n.get("k") == "Var" and n.get("ref") and n.get("init") is not None:
             i = L.unwrap(n["init"])
             if i.get("k") == "Member" and i.get("qn", "").endswith("MemoryInfo::counter"):
                 _COUNTER_ALIASES.add(n["d"])
+        elif n.get("k") == "Var" and not n.get("ref") and entry_only and "*" not in (fn.type(n.get("t")) or ""):
+            t = fn.type(n.get("t")) or ""
+            if "MemoryInfo" in t and "iterator" not in t and "map" not in t and "pair" not in t:
+                _INFO_COPIES.add(n["d"])
 
 
 def is_counter(n):
     if n.get("k") == "Ref" and n.get("d") in _COUNTER_ALIASES:
         return True
-    return n.get("k") == "Member" and n.get("qn", "").endswith("MemoryInfo::counter")
+    if n.get("k") == "Member" and n.get("qn", "").endswith("MemoryInfo::counter"):
+        b = L.unwrap(n.get("b") or {})
+        if b.get("k") == "Ref" and b.get("d") in _INFO_COPIES:
+            return False          # the counter of a local copy, not of the pool entry
+        return True
+    return False
 
 
 def counter_delta(stmt):
@@ -187,7 +200,8 @@ def opaque_calls(n, names):
     out = []
     for x in walk(n or {}):
         if is_call(x) and x not in frees(n) and not (x.get("k") == "MCall" and x.get("n") in ("erase", "find", "end", "begin", "size", "empty")) \
-                and not (x.get("k") == "OpCall") and x.get("callee") not in ("FEAT::assertion",) and not str(x.get("callee", "")).startswith("std::"):
+                and not (x.get("k") == "OpCall") and x.get("callee") not in ("FEAT::assertion",) and not str(x.get("callee", "")).startswith("std::") \
+                and not (x.get("k") in ("Construct", "TempObj") and ("MemoryInfo" in str(x.get("ccls", "")) or str(x.get("ccls", "")).startswith("std::"))):
             if any(y.get("k") == "Ref" and y.get("n") in names for a in (x.get("a") or []) for y in walk(a)):
                 out.append(x)
     return out
@@ -358,11 +372,28 @@ def pool_rules(ck, facts, runtime_facts):
                 ck.incomplete("C20.pool-release", "MemoryPool::release_memory: expected exactly one branch on the counter, found %d" % len(cif))
             else:
                 n = cif[0]
+                # `if(--counter == 0)` / `if(counter-- == 1)`: the update is part of the test; the test sees the new value for
+                # prefix / compound forms and the old one for the postfix form
+                cmods = counter_mods(n["c"])
+                cond_mod = cmods[0] if len(cmods) == 1 and isinstance(cmods[0][0], int) else None
+                if cmods and (cond_mod is None or sum(1 for x in walk(n["c"]) if is_counter(x)) != 1):
+                    ck.incomplete("C20.pool-release", "counter condition %s updates the counter in a way the check does not model" % render(n["c"]))
+                    continue
+
+                def csub(x, v):
+                    if cond_mod is not None and x is cond_mod[1]:
+                        return v if (x.get("k") == "Un" and x.get("post")) else v + cond_mod[0]
+                    return v if is_counter(x) else None
                 try:
-                    tt = [bool(ieval(n["c"], lambda x, v=v: v if is_counter(x) else None)) for v in (1, 2, 3, 7)]
+                    tt = [bool(ieval(n["c"], lambda x, v=v: csub(x, v))) for v in (1, 2, 3, 7)]
                 except (NoEval, TypeError) as e:
                     tt = None
                     ck.incomplete("C20.pool-release", "counter condition %s not evaluable (%s)" % (render(n["c"]), e))
+                if tt is not None and tt not in ([True, False, False, False], [False, True, True, True]):
+                    ck.ob("C20.pool-release", "MemoryPool::release_memory/last-reference-test", False,
+                          "the branch condition %s is %s for counter = 1,2,3,7 (value before this call); it must single out counter == 1 (the last reference)" % (render(n["c"]), tt),
+                          fn.file, n.get("l"))
+                    continue
                 if tt is not None:
                     def rest_after(ifn, taken):
                         """statements executed after `taken` left the function: the siblings following the if"""
@@ -379,6 +410,8 @@ def pool_rules(ck, facts, runtime_facts):
                         last = rest_after(n, more)
                     if more is None:
                         more = rest_after(n, last)
+                    if more is None and cond_mod is not None and last is not None:
+                        more = {"k": "Block", "s": [], "l": n.get("l")}       # the decrement already happened in the test
                     if last is None or more is None:
                         ck.incomplete("C20.pool-release", "MemoryPool::release_memory: the two sides of the counter test (%s) are not both recognisable" % render(n["c"]))
                         continue
@@ -389,14 +422,14 @@ def pool_rules(ck, facts, runtime_facts):
                     fr = frees(last) if last is not None else []
                     er = erases(last) if last is not None else []
                     opq = opaque_calls(last, {p, "it"}) + opaque_calls(more, {p, "it"})
-                    if opq and (len(fr) != 1 or len(er) != 1 or len(counter_mods(more or {})) != 1):
+                    if opq and (len(fr) != 1 or len(er) != 1 or len(counter_mods(more or {})) + (1 if cond_mod else 0) != 1):
                         ck.incomplete("C20.pool-release", "MemoryPool::release_memory hands %s / the map iterator to %s, which the check does not model" % (p, opq[0].get("callee")))
                         continue
                     ok_free = len(fr) == 1 and L.unwrap(fr[0]["a"][0]).get("n") == p and len(er) == 1 and not counter_mods(last or {})
                     ck.ob("C20.pool-release", "MemoryPool::release_memory/free-and-erase", ok_free,
                           "last-reference branch: %d free(%s) calls, %d _pool.erase calls, %d counter updates (expected 1,1,0)" % (len(fr), p, len(er), len(counter_mods(last or {}))),
                           fn.file, n.get("l"))
-                    cm = counter_mods(more) if more is not None else []
+                    cm = (counter_mods(more) if more is not None else []) + ([cond_mod] if cond_mod else [])
                     ok_dec = len(cm) == 1 and cm[0][0] == -1 and not frees(more) and not erases(more)
                     ck.ob("C20.pool-release", "MemoryPool::release_memory/decrement", ok_dec,
                           "other-references branch: counter updates %s, %d free calls, %d erase calls (expected one -1, 0, 0)" % ([c[0] for c in cm], len(frees(more or {})), len(erases(more or {}))),
@@ -426,6 +459,7 @@ def pool_rules(ck, facts, runtime_facts):
     may_return_null = False
     fields = memory_info_fields()
     for fn in one("allocate_memory"):
+        set_counter_aliases(fn, entry_only=False)
         rets = [n for n in fn.nodes() if n.get("k") == "Return" and n.get("e") is not None]
         regs = pool_registrations(fn)
         tkey = "MemoryPool::allocate_memory"
@@ -436,8 +470,20 @@ def pool_rules(ck, facts, runtime_facts):
         if fields is None:
             ck.incomplete("C20.pool-allocate", "struct MemoryInfo { counter; size; } not found in kernel/util/memory_pool.hpp")
             continue
+        def _is_null_lit(e_):
+            e_ = L.unwrap(e_)
+            while e_.get("k") in ("Construct", "TempObj") and len(e_.get("a", [])) == 1:
+                e_ = L.unwrap(e_["a"][0])
+            return e_.get("k") == "Null" or (e_.get("k") == "Int" and e_.get("v") == "0")
+        null_rets = [r for r in rets if _is_null_lit(r["e"])]
+        if null_rets:
+            may_return_null = True          # `return nullptr;` spelled out
+        rets = [r for r in rets if not _is_null_lit(r["e"])]
         retvars = {L.unwrap(r["e"]).get("d") for r in rets}
         rv = next(iter(retvars)) if len(retvars) == 1 else None
+        if rv is None:
+            ck.incomplete("C20.pool-allocate", "%s: the non-null returns do not all return one local pointer variable (%s)" % (fn.full, sorted(render(r["e"])[:30] for r in rets)))
+            continue
         problems, bad_cnt, shown = [], [], []
         for node, key_e, info_e in regs:
             k0 = L.unwrap(key_e)
@@ -449,6 +495,9 @@ def pool_rules(ck, facts, runtime_facts):
                 problems.append(why)
                 continue
             shown.extend(vals)
+            if any(v == "?" for v in vals) and not any(v != 1 and v != "?" for v in vals):
+                problems.append("the counter value of the entry registered at line %s is not a constant the check can evaluate (%s)" % (node.get("l"), vals))
+                continue
             if any(v != 1 for v in vals):
                 bad_cnt.append("the entry registered at line %s carries counter %s" % (node.get("l"), vals))
         if problems and not bad_cnt:
@@ -516,6 +565,19 @@ def pool_rules(ck, facts, runtime_facts):
                 ck.incomplete("C20.pool-finalize", "finalize condition not evaluable: %s" % e)
             if tt is not None:
                 br = n.get("then") if tt[1] else n.get("else")
+                if br is None:
+                    # `if(_pool.empty()) return;` followed by the error exit: the non-empty side is the rest of the block
+                    other = n.get("else") if tt[1] else n.get("then")
+                    leaves = other is not None and any(x.get("k") in ("Return", "Throw") or (is_call(x) and x.get("noreturn")) for x in walk(other))
+                    if leaves:
+                        for blk in [fn.body] + [x for x in walk(fn.body) if x.get("k") == "Block"]:
+                            if blk.get("k") == "Block" and any(x is n for x in blk.get("s", [])):
+                                i_ = [x is n for x in blk["s"]].index(True)
+                                br = {"k": "Block", "s": blk["s"][i_ + 1:], "l": n.get("l")}
+                                break
+                    if br is None:
+                        ck.incomplete("C20.pool-finalize", "MemoryPool::finalize: the side of `%s` taken for a non-empty pool is not recognisable" % render(n["c"]))
+                        continue
                 stops = [x for x in walk(br or {}) if (is_call(x) and (x.get("noreturn") or x.get("callee") in ("exit", "std::exit", "abort", "std::abort", "FEAT::abortion"))) or x.get("k") == "Throw"]
                 others = [x for x in walk(br or {}) if is_call(x) and x.get("k") in ("Call", "MCall") and not str(x.get("callee", "")).startswith("std::")
                           and not (x.get("k") == "MCall" and render(x.get("obj")).endswith("_pool"))]
@@ -614,6 +676,26 @@ def pool_registrations(fn):
     return out
 
 
+def _const_or_why(e):
+    """value of a constant integer expression; 'nonconst:<text>' if it reads a parameter / variable (definitely not the
+    constant 1 for every call); '?' if the check cannot evaluate it"""
+    def sub(y):
+        if y.get("k") == "Ref" and y.get("v") is not None and y.get("dk") in ("enum", "tparam", "smember", "global"):
+            try:
+                return int(y["v"])
+            except ValueError:
+                return None
+        if y.get("k") == "SizeOf" and y.get("v") is not None:
+            return int(y["v"])
+        return None
+    try:
+        return ieval(e, sub)
+    except (NoEval, TypeError, KeyError):
+        if any(y.get("k") == "Ref" and y.get("dk") in ("param", "local") for y in walk(e)):
+            return "nonconst:" + render(e)[:40]
+        return "?"
+
+
 def _agg_counter(e, fields):
     """counter value of an aggregate initialiser `MemoryInfo{c, s}` / `{c, s}`; None if e is not one"""
     e = L.unwrap(e)
@@ -625,10 +707,7 @@ def _agg_counter(e, fields):
         if e.get("k") == "InitList" and len(a) == 0:
             return 0          # value-initialised
         if i < len(a):
-            try:
-                return ieval(a[i], lambda y: None)
-            except (NoEval, TypeError):
-                return "?"
+            return _const_or_why(a[i])
         return 0
     return None
 
@@ -694,10 +773,7 @@ def reaches_node(fn, a, b):
 def counter_delta_init(x):
     """`mi.counter = <int>` on a local MemoryInfo -> value"""
     if x.get("k") == "Assign" and x.get("op") == "=" and is_counter(L.unwrap(x["lhs"])) and L.unwrap(x["lhs"].get("b") or {}).get("k") == "Ref":
-        try:
-            return ieval(x["rhs"], lambda y: None)
-        except (NoEval, TypeError):
-            return "?"
+        return _const_or_why(x["rhs"])
     return None
 
 
